@@ -127,6 +127,9 @@ class ServerApp:
     # -- sync handlers -----------------------------------------------------
     def _connect(self, sid, environ):
         spec = self._connect_pre(sid, environ)
+        f = self._fault_for('connect', self.counts['connect'] - 1, sid)
+        if f and self.events and self.events[-1]['sid'] == sid:
+            self._apply_sync(f, sid, self.events[-1])
         return self._connect_value(spec)
 
     def _message(self, sid, data):
@@ -171,6 +174,9 @@ class ServerApp:
     # -- coroutine handlers --------------------------------------------------
     async def _a_connect(self, sid, environ):
         spec = self._connect_pre(sid, environ)
+        f = self._fault_for('connect', self.counts['connect'] - 1, sid)
+        if f and self.events and self.events[-1]['sid'] == sid:
+            await self._apply_async(f, sid, self.events[-1])
         return self._connect_value(spec)
 
     async def _a_message(self, sid, data):
